@@ -6,7 +6,6 @@ package beacon
 import (
 	"errors"
 	"fmt"
-	"maps"
 	"sort"
 	"sync"
 	"sync/atomic"
@@ -822,10 +821,16 @@ func (b *beacon) Reset() {
 func (b *beacon) PushManyFromMap(treasures map[string]treasure.Treasure) {
 	b.mu.Lock()
 	defer b.mu.Unlock()
-	maps.Copy(b.treasuresByKeys, treasures)
-	// add elements to the ordered treasure if there is any ordered treasures
-	if b.isOrdered {
-		for _, treasureObj := range treasures {
+	// A key that is already present (a concurrent Add during an index build, or a second build
+	// racing the first) must not get a second slot in the ordered slice: a record listed twice
+	// would be returned twice by reads and handed out twice by claims.
+	for key, treasureObj := range treasures {
+		if _, exists := b.treasuresByKeys[key]; exists {
+			continue
+		}
+		b.treasuresByKeys[key] = treasureObj
+		// add elements to the ordered treasure if there is any ordered treasures
+		if b.isOrdered {
 			b.treasuresByOrder = append(b.treasuresByOrder, treasureObj)
 		}
 	}
